@@ -494,3 +494,27 @@ m('M38c', 'C15', 'C15.value-before-notify', 'signal.h',
             notify_awaiters();""", """            _cur_val = nullptr;""", 'disconnect does not wake')
 m('M38d', 'C15', 'C15.alive-or-fail', 'signal.h',
   "            throw await_canceled_exception();", "            throw value_not_ready_exception();", 'wrong exception on disconnect')
+m('M32', 'C13', 'C13.ask-siblings', 'generator.h',
+  """                auto h = std::coroutine_handle<promise_type>::from_promise(*this);
+                //if generator is finished, throw exception
+                if (h.done()) throw no_more_values_exception();
+                //setup awaiting promise""", """                auto h = std::coroutine_handle<promise_type>::from_promise(*this);
+                //setup awaiting promise""", 'next_future does not refuse a finished generator')
+m('M33', 'C13', 'C13.one-step', 'iterator.h',
+  """    reference operator*() const {
+        return _gen->value();""", """    reference operator*() const {
+        (void)(bool)_gen->next();
+        return _gen->value();""", 'operator* advances')
+m('M34', 'C13', 'C13.hooks', 'generator.h',
+  """        void return_void() {
+            _done = true;""", """        void return_void() {""", 'return_void does not mark done')
+m('M34b', 'C13', 'C13.hooks', 'generator.h',
+  """        yield_suspend final_suspend() noexcept {
+            _ret = nullptr;""", """        yield_suspend final_suspend() noexcept {""", 'final_suspend keeps the last value')
+m('M34c', 'C13', 'C13.wake-asker-once', 'generator.h',
+  "                awaiter *caller = std::exchange(p->_caller, nullptr);", "                awaiter *caller = p->_caller;", 'asker not taken')
+m('M34d', 'C13', 'C13.one-step', 'iterator.h',
+  """        storage z{std::move(_gen->value())};
+        _next = _gen->next();
+        return z;""", """        storage z{std::move(_gen->value())};
+        return z;""", 'postfix ++ does not advance')
